@@ -28,6 +28,9 @@ WORDS = [u"alpha", u"Bravo", u"CHARLIE", u"running", u"runs", u"ran", u"librarie
 SEPS = [u" ", u" ", u" ", u", ", u". ", u"\n", u" - ", u"; ", u"\t", u" / ", u"! ", u" (", u") "]
 
 
+COMMON = u"zebra"
+
+
 def rand_text(rng, nwords=(1, 9)):
     parts = []
     for _ in range(rng.randrange(nwords[0], nwords[1] + 1)):
@@ -120,7 +123,10 @@ def build_case(run, rng, name, field, flags, ndocs):
     from whoosh.filedb.filestore import FileStorage
     import shutil
     import tempfile
-    schema = fields.Schema(key=fields.ID(stored=True, unique=True), f=field)
+    import copy
+    # (g: a second field of the same type; half of the documents repeat their text in it, so that a query
+    # can match a word of the text through the other field only)
+    schema = fields.Schema(key=fields.ID(stored=True, unique=True), f=field, g=copy.deepcopy(field))
     tmpdir = tempfile.mkdtemp(prefix="verif-c17-")
     try:
         return _build_case(run, rng, name, field, flags, ndocs, schema, FileStorage(tmpdir))
@@ -146,6 +152,14 @@ def _build_case(run, rng, name, field, flags, ndocs, schema, storage):
                 texts[k] += rng.choice([u" a<b", u" x&lt;y", u" <i>tag</i> Q&A"])
             if name == "stemming-ignore" and rng.random() < 0.6:     # words on the analyzer's ignore list
                 texts[k] += rng.choice([u" running", u" libraries jumped", u", Running"])
+            if flags.get("highlight") and not flags.get("grams"):
+                # a word every document has, at different places and the more often the later the document:
+                # hits share a term, and their order by score is not their order by number
+                reps = u" ".join([COMMON] * (1 + keys.index(k)))
+                texts[k] = (reps + u" " + texts[k]) if rng.random() < 0.5 else (texts[k] + u" " + reps)
+            if keys.index(k) % 2 == 0:
+                w.add_document(key=k, f=texts[k], g=texts[k])
+                continue
             w.add_document(key=k, f=texts[k])
         w.commit(merge=False)
         # the second segment, the deletion, the searches and the query-time analysis go through the index
@@ -266,7 +280,16 @@ def _build_case(run, rng, name, field, flags, ndocs, schema, storage):
                         pick = list(rng.choice(nested))
                     elif adj and rng.random() < 0.5:
                         pick = list(rng.choice(adj))
+                if not flags.get("grams"):
+                    cq = [x[0] for x in tokens_of(field, COMMON, "query")]
+                    if cq and cq[0] in pool and rng.random() < 0.7:
+                        pick = [cq[0]] + [t for t in pick if t != cq[0]][:1]
                 hq = query.Or([query.Term("f", t) for t in pick])
+                # ... plus a word of this text that is searched in the other field only: matched there, it is
+                # none of the terms the excerpt of f highlights
+                others = [t for t in pool if t not in pick]
+                if others and not flags.get("grams") and rng.random() < 0.6:
+                    hq = query.Or([query.Term("f", t) for t in pick] + [query.Term("g", rng.choice(others))])
                 for fname, frag in (("context", highlight.ContextFragmenter(maxchars=40, surround=8)),
                                     ("sentence", highlight.SentenceFragmenter(maxchars=60)),
                                     ("whole", highlight.WholeFragmenter()),
